@@ -141,6 +141,7 @@ def run(chk):
                 subs = dict(reversed(list(subs.items())))
             desc = f'random catalog ({nsl} superslabs, {[len(sl) for sl in cat]} halos) cleaned={cleaned} subsamples={subs}'
             try:
+                subs0 = dict(subs)                      # the loader consumes keys of the dict it is given
                 cobj = cc.load(zd, cleaned=cleaned, subsamples=subs, fields=['id', 'N'])
             except Exception as e:  # noqa
                 chk.violation(f'big-raises-{type(e).__name__}', f'{desc}: {type(e).__name__}: {e}', dict(cat=cat, cleaned=cleaned))
@@ -148,6 +149,39 @@ def run(chk):
             nbig += 1
             nontriv += 1
             cc.compare(chk, 'C01', c, cobj, ['pos', 'vel', 'pid'], f'big-{"cleaned" if cleaned else "uncleaned"}-{"".join(abs_)}', desc, dict(cat=cat, cleaned=cleaned, ABs=abs_))
+            # the same superslab files handed over as a list in another order: every halo keeps ITS OWN particles (its own superslab's files),
+            # rows follow the list order (the concatenation property itself is C03's)
+            if nsl >= 2 and rep % 2 == 0:
+                order = [int(x) for x in rng.permutation(nsl)]
+                if order == sorted(order):
+                    order = order[::-1]
+                flist = [os.path.join(zd, 'halo_info', f'halo_info_{s_:03d}.asdf') for s_ in order]
+                try:
+                    pobj = cc.load(flist, cleaned=cleaned, subsamples=dict(subs0), fields=['id', 'N'])
+                except Exception as e:  # noqa
+                    chk.violation(f'filelist-raises-{type(e).__name__}', f'{desc} as file list in order {order}: {type(e).__name__}: {e}', dict(cat=cat, cleaned=cleaned, order=order))
+                    continue
+                nbig += 1
+
+                def per_halo(o):
+                    out = {}
+                    tok = cc.project(o, 'pos')
+                    for ab in abs_:
+                        st = np.asarray(o.halos['npstart' + ab]).astype(np.int64)
+                        no = np.asarray(o.halos['npout' + ab]).astype(np.int64)
+                        for hid_, a_, n_ in zip(np.asarray(o.halos['id']).astype(np.int64), st, no):
+                            out[(int(hid_), ab)] = tok[a_:a_ + n_].tolist()
+                    return out
+                want_h, got_h = per_halo(cobj), per_halo(pobj)
+                want_ids = [1000 + sc.uid(s_, k_) for s_ in order for k_ in range(len(cat[s_]))]
+                if np.asarray(pobj.halos['id']).astype(np.int64).tolist() != want_ids:
+                    chk.violation('filelist-row-order', f'{desc} as file list in order {order}: halo rows do not follow the list order', dict(cat=cat, cleaned=cleaned, order=order))
+                else:
+                    badk = [k_ for k_ in want_h if got_h.get(k_) != want_h[k_]]
+                    if badk:
+                        k0 = badk[0]
+                        chk.violation(f'filelist-permuted-slice-{k0[1]}', f'{desc} as file list in order {order}: halo id {k0[0]} subsample {k0[1]} holds particle tokens {got_h.get(k0)} '
+                                      f'but its own particles are {want_h[k0]} (token // 4000 = superslab of the particle file)', dict(cat=cat, cleaned=cleaned, order=order))
     nload += nbig
     chk.part('loads', loads=nload, nonempty=nontriv, big_random=nbig)
     # light-cone layout
